@@ -8,13 +8,15 @@ The compiler itself is a parameter: `extract σ view` is its output as a functio
 registered custom formats) and of what the file manager answers
 (`view f` = the parsed module of `f`, if any), `touched view` the files it asks for. That `beff_core::extract` is such a
 function (deterministic, files only through the `FileManager`) is C10 plus the trait boundary; `parse` is
-`parse_and_bind` with the host's resolver (the set of files of the project is fixed during a session, so the
-resolver's answers are).
+`parse_and_bind` with the host's resolver, whose answers depend on which files exist: a file may be created during a
+session (its first update), never deleted.
 -/
 namespace BeffVerif.Session
 
 structure World (File Content Mod Sett Out : Type) where
-  parse : File → Content → Option Mod
+  /-- `parse_and_bind` with the host's resolver: the module of a file depends on its content AND on which files exist (an
+  import is resolved only to a file that exists: reading S10) -/
+  parse : (File → Bool) → File → Content → Option Mod
   /-- the compiler: a function of the SETTINGS of this build (custom formats) and of what the file manager answers -/
   extract : Sett → (File → Option Mod) → Out
   touched : Sett → (File → Option Mod) → List File
@@ -23,31 +25,38 @@ variable {File Content Mod Sett Out : Type} [DecidableEq File]
 
 structure State (File Content Mod : Type) where
   cache : File → Option Mod
-  disk : File → Content
+  /-- `none`: the file does not exist (yet) -/
+  disk : File → Option Content
+
+/-- which files exist -/
+def existing (s : State File Content Mod) : File → Bool := fun f => (s.disk f).isSome
 
 inductive Op (File Content Sett : Type) where
   | update (f : File) (c : Content)
   /-- `bundle_to_string(entry, settings)`: every rebuild names its settings -/
   | rebuild (σ : Sett)
 
-def fresh (disk : File → Content) : State File Content Mod := ⟨fun _ => none, disk⟩
+def fresh (disk : File → Option Content) : State File Content Mod := ⟨fun _ => none, disk⟩
 
 /-- `LazyFileManager::get_or_fetch_file`: cache first, else read + parse -/
 def view (w : World File Content Mod Sett Out) (s : State File Content Mod) : File → Option Mod :=
   fun f => match s.cache f with
     | some m => some m
-    | none => w.parse f (s.disk f)
+    | none => (s.disk f).bind (w.parse (existing s) f)
 
 /-- `update_file_content_inner` (after fix D66): a content that does not parse drops the cached module.
 `keepStale = true` is the behaviour before the fix (the entry is left alone). -/
 def update (w : World File Content Mod Sett Out) (keepStale : Bool) (s : State File Content Mod) (f : File) (c : Content) :
     State File Content Mod :=
-  { disk := fun g => if g = f then c else s.disk g
+  let isNew := (s.disk f).isNone
+  let disk' : File → Option Content := fun g => if g = f then some c else s.disk g
+  { disk := disk'
     cache := fun g => if g = f then
-        (match w.parse f c with
+        (match w.parse (fun h => (disk' h).isSome) f c with
          | some m => some m
          | none => if keepStale then s.cache f else none)
-      else s.cache g }
+      -- a file that is NEW to the session changes what imports resolve to: every cached module is dropped (fix D94)
+      else if isNew then none else s.cache g }
 
 /-- a rebuild: output, and the files fetched on the way are cached when they parse -/
 def rebuild (w : World File Content Mod Sett Out) (s : State File Content Mod) (σ : Sett) : State File Content Mod × Out :=
@@ -70,6 +79,6 @@ def run (w : World File Content Mod Sett Out) (keepStale : Bool) : State File Co
 
 /-- the cache only holds what parsing the current content gives -/
 def Inv (w : World File Content Mod Sett Out) (s : State File Content Mod) : Prop :=
-  ∀ f m, s.cache f = some m → w.parse f (s.disk f) = some m
+  ∀ f m, s.cache f = some m → ∃ c, s.disk f = some c ∧ w.parse (existing s) f c = some m
 
 end BeffVerif.Session
